@@ -199,15 +199,16 @@ func (fv *FuncVerifier) globalVar(o *types.Var) Term {
 }
 
 func (fv *FuncVerifier) evalGlobalInit(o *types.Var, gi *globalInit) (t Term, ok bool) {
-	defer func() {
+	defer func(nframes int) {
 		if r := recover(); r != nil {
+			fv.frames = fv.frames[:nframes] // an unsupported construct met inside nested inlined calls: drop their frames
 			if _, isU := r.(unsupported); isU {
 				ok = false
 				return
 			}
 			panic(r)
 		}
-	}()
+	}(len(fv.frames))
 	nf := &frame{info: gi.pkg.TypesInfo, pkg: gi.pkg}
 	fv.frames = append(fv.frames, nf)
 	defer func() { fv.frames = fv.frames[:len(fv.frames)-1] }()
@@ -1069,14 +1070,15 @@ func (fv *FuncVerifier) evalComposite(e *ast.CompositeLit, t types.Type, st *Sta
 						// the value itself is not modelled
 						if _, isLit := ast.Unparen(kv.Value).(*ast.FuncLit); !isLit {
 							func() {
-								defer func() {
+								defer func(nframes int) {
 									if r := recover(); r != nil {
+										fv.frames = fv.frames[:nframes] // an unsupported construct met inside nested inlined calls: drop their frames
 										if _, ok := r.(unsupported); ok {
 											reject("unmodelled field %s initialised with effectful expression", name)
 										}
 										panic(r)
 									}
-								}()
+								}(len(fv.frames))
 								fv.eval(kv.Value, st)
 							}()
 						}
